@@ -8,6 +8,7 @@ import (
 	"sort"
 	"strconv"
 	"strings"
+	"unicode"
 
 	"golang.org/x/tools/go/ssa"
 )
@@ -16,11 +17,12 @@ func init() {
 	property("C19",
 		"Static conformance of the lexer's position bookkeeping and tables: (a) width-fact typestate over every token construction site — a start/end column may be derived as 'counter - k' only where the last k characters are known to be one byte wide (ASCII case arms, peeked ASCII second characters); after a reader loop the current character is a lookahead of unknown width (possibly none at end of input), so the prev* counters must be used; byte counters go to byte fields and character counters to character fields; start fields are read before the token's first character is consumed; (b) readChar restarts the four column counters and increments the line exactly when the previous character was a newline; end of input is readPosition >= len(input) in readChar and peekChar alike, and readChar is the only function that stores the position, line and column counters; (c) on every non-queued path whitespace {space, tab, LF, CR} and '#' / '//' comments are skipped before the dispatch; (d) the keyword table equals the README keyword list; plus the token-origin clauses of C16.c and the lexer start state / -lm wiring of C17.f. NOT decided: layout invariance of the token sequence itself (runtime string scanning; false by design where an identifier touches a quote or a comment separates adjacent strings).",
 		[]string{"unicode.IsLetter / IsDigit / utf8.DecodeRuneInString behave as documented", "go/ssa lowering is faithful to the source"},
-		"C19.a", "C19.b", "C19.c", "C19.d", "C16.a", "C16.c", "C17.f")
+		"C19.a", "C19.b", "C19.c", "C19.d", "C19.e", "C16.a", "C16.c", "C17.f")
 
 	register(&Rule{ID: "C19.a", Doc: "width-fact typestate over token construction sites", Floor: 40, Run: c19a})
 	register(&Rule{ID: "C19.b", Doc: "readChar line/column reset; end-of-input test shared by readChar and peekChar", Floor: 8, Run: c19b})
 	register(&Rule{ID: "C19.c", Doc: "whitespace and comments skipped before dispatch; whitespace and comment opener sets", Floor: 4, Run: c19c})
+	register(&Rule{ID: "C19.e", Doc: "character classes of the lexer: isLetter = Unicode letters and '_', isHexDigit = [0-9a-fA-F] (evaluated from their definitions over U+0000..U+02FF)", Floor: 2, Run: c19e})
 	register(&Rule{ID: "C19.d", Doc: "keyword table equals the documented keyword list", Floor: 30, Run: c19d})
 }
 
@@ -993,5 +995,46 @@ func c19d(c *Ctx) {
 	}
 	if fn != nil {
 		c.Check(okHit && okMiss, "GetIdentType/lookup", c.W.FuncPos(fn), "keyword type if listed, IDENT otherwise", "GetIdentType is not (keywords[ident] if present else IDENT)")
+	}
+}
+
+// c19e: the lexer's own character classes, which the other lexer rules use as vocabulary. Each
+// definition is summarised and evaluated, rune by rune over U+0000..U+02FF, against the class it
+// stands for (however the class is spelled: comparisons, a switch, a digit table).
+func c19e(c *Ctx) {
+	for _, x := range []struct {
+		fn   string
+		want func(r rune) bool
+		what string
+	}{
+		{"lexer.isLetter", func(r rune) bool { return unicode.IsLetter(r) || r == '_' }, "a letter is a Unicode letter or '_'"},
+		{"lexer.isHexDigit", func(r rune) bool { return r >= '0' && r <= '9' || r >= 'a' && r <= 'f' || r >= 'A' && r <= 'F' }, "a hex digit is one of 0-9, a-f, A-F"},
+	} {
+		fn := c.W.Func("lexer", strings.TrimPrefix(x.fn, "lexer."))
+		if fn == nil || len(fn.Blocks) == 0 {
+			continue // written out in place: the rules read the test itself
+		}
+		sum := c.PC(fn).boolSummaryAny(fn)
+		pos := c.W.FuncPos(fn)
+		if sum == nil {
+			c.Unk(fn.Name()+"/definition", pos, "cannot summarise "+fn.Name())
+			continue
+		}
+		bad := ""
+		for r := rune(0); r < 0x300 && bad == ""; r++ {
+			switch dnfAtRune(sum.pos, r) {
+			case -1:
+				bad = fmt.Sprintf("cannot evaluate the definition at %q", r)
+			case 1:
+				if !x.want(r) {
+					bad = fmt.Sprintf("%s(%q) is true", fn.Name(), r)
+				}
+			case 0:
+				if x.want(r) {
+					bad = fmt.Sprintf("%s(%q) is false", fn.Name(), r)
+				}
+			}
+		}
+		c.Check(bad == "", fn.Name()+"/definition", pos, x.what, bad+"; expected: "+x.what)
 	}
 }
